@@ -26,7 +26,7 @@ import (
 	"github.com/flamego/flamego/verifharness/internal/rt"
 )
 
-const rule = "case = environment in {development, production, test} x Recovery placed as application middleware, group handler or first route handler x 0..2 recording middleware before it (the outermost sometimes sends status 202 and a few bytes before Next()) x Recovery installed once or twice (with a recording middleware between the two), before the first request or only after both routes have been requested once x optionally an application that has mapped a ReturnHandler of its own (it only writes lone strings) x optionally a handler that re-maps http.ResponseWriter to a plain embedding wrapper x 1..3 later handlers (route handlers; or the last one as the final action; or all of them as the not-found chain), each of the shape func(Context), func(Context) error / string (returning nil / the empty string), func(ResponseWriter, *Request) or http.HandlerFunc and a program over {write a status, write body bytes, Next(), cancel the request context, panic(value) - from ordinary code, from 150 frames further down, from a function whose source file cannot be read or from the last line of a source file that does not end with a newline -, require an unresolvable dependency, write with a registered before-function that panics, WriteHeader with a code the underlying writer rejects by panicking, a Hijack that fails} with panic values of kinds {string, error, runtime error, struct, http.ErrAbortHandler, custom error, integer, typed-nil error, slice, map, struct with a slice field, the empty string, an error with an empty message}; GET or HEAD, optionally with Accept or Connection/Upgrade request headers; the environment may change between construction and requests x a sequence of 1..4 requests mixing the panicking route and a healthy one. " +
+const rule = "case = environment in {development, production, test} x Recovery placed as application middleware, group handler or first route handler x optionally a client that has gone away (every body write of a panicking request fails below; only escape, status and the middleware in front are judged then) x 0..2 recording middleware before it (the outermost sometimes sends status 202 and a few bytes before Next()) x Recovery installed once or twice (with a recording middleware between the two), before the first request or only after both routes have been requested once x optionally an application that has mapped a ReturnHandler of its own (it only writes lone strings) x optionally a handler that re-maps http.ResponseWriter to a plain embedding wrapper x 1..3 later handlers (route handlers; or the last one as the final action; or all of them as the not-found chain), each of the shape func(Context), func(Context) error / string (returning nil / the empty string), func(ResponseWriter, *Request) or http.HandlerFunc and a program over {write a status, write body bytes, Next(), cancel the request context, panic(value) - from ordinary code, from 150 frames further down, from a function whose source file cannot be read or from the last line of a source file that does not end with a newline -, require an unresolvable dependency, write with a registered before-function that panics, WriteHeader with a code the underlying writer rejects by panicking, a Hijack that fails} with panic values of kinds {string, error, runtime error, struct, http.ErrAbortHandler, custom error, integer, typed-nil error, slice, map, struct with a slice field, the empty string, an error with an empty message}; GET or HEAD, optionally with Accept or Connection/Upgrade request headers; the environment may change between construction and requests x a sequence of 1..4 requests mixing the panicking route and a healthy one. " +
 	"Oracle: nothing escapes ServeHTTP and every request returns (60 s watchdog); an interpreter of the handler programs says what had been sent before the panic: status = that status, or 500 if none; body = the earlier bytes followed by a tail that (development) shows the panic value, (otherwise) shows neither the value nor stack frames; every recording middleware logged its code after Next(); a healthy request answers exactly like on a fresh instance. " +
 	"non-trivial = a case with a panic after a write, or inside a nested Next(), or with a non-string value, or with a failed dependency resolution, or followed by a healthy request; distinct by case text"
 
@@ -96,6 +96,11 @@ type Case struct {
 	// writes a returned string and ignores everything else): what Recovery sends
 	// is not a handler's return value.
 	OwnReturn bool `json:"own_return_handler,omitempty"`
+	// Gone: the client of the panicking requests has gone away: every body write
+	// fails at the underlying writer (status lines are still taken). Nothing may
+	// escape all the same, the status is the one that was due, middleware in
+	// front completes; what the body would have been is not looked at.
+	Gone bool `json:"client_gone,omitempty"`
 }
 
 // plainWriter is the usual embedding wrapper: http.ResponseWriter and nothing else.
@@ -353,6 +358,7 @@ type app struct {
 	primed     bool
 	late       []flamego.Handler
 	reqHdr     string
+	gone       bool
 	f          *flamego.Flame
 	seenStatus []int // Status() as read by each recording middleware after Next()
 	log        []string
@@ -544,6 +550,7 @@ func (s strictSpy) Hijack() (net.Conn, *bufio.ReadWriter, error) {
 
 func serveM(a *app, method, path string) (r resp) {
 	spy := rt.NewSpy()
+	spy.Gone = a.gone
 	hdr := http.Header{}
 	switch a.reqHdr {
 	case "accept-json":
@@ -666,7 +673,9 @@ func checkCase(c Case) (out evid.Outcome) {
 	sawPanic := false
 	for i, which := range c.Reqs {
 		a.log, a.seenStatus = nil, nil
+		a.gone = c.Gone && which != "ok"
 		got := serveM(a, method, c.path(which))
+		a.gone = false
 		desc := fmt.Sprintf("request %d (%s) of %s", i, which, js(c))
 		if got.escaped != nil {
 			return fail(out, "escaped", "a panic escaped ServeHTTP: %v; %s", got.escaped, desc)
@@ -693,7 +702,7 @@ func checkCase(c Case) (out evid.Outcome) {
 		// at all, or what GET would get, are both taken)
 		headSwallowed := head && got.body == ""
 		if want.panicked == "" {
-			if got.status != want.status || (got.body != want.body && !headSwallowed) {
+			if got.status != want.status || (got.body != want.body && !headSwallowed && !c.Gone) {
 				return fail(out, "no-panic-response", "response %d %q, the handlers wrote %d %q; %s", got.status, got.body, want.status, want.body, desc)
 			}
 			out.Classes = append(out.Classes, "no-panic")
@@ -720,9 +729,14 @@ func checkCase(c Case) (out evid.Outcome) {
 		if got.status != wantStatus {
 			return fail(out, "status", "status %d, want %d (status sent before the panic: %d); %s", got.status, wantStatus, want.status, desc)
 		}
-		if headSwallowed {
+		if headSwallowed && !c.Gone {
 			out.NonTrivial = true
 			out.Classes = append(out.Classes, "head")
+			continue
+		}
+		if c.Gone {
+			out.NonTrivial = true
+			out.Classes = append(out.Classes, "client-gone")
 			continue
 		}
 		if !strings.HasPrefix(got.body, want.body) {
@@ -823,6 +837,7 @@ func genCase(t *rapid.T) Case {
 	c.OuterWrites = c.Outer > 0 && !c.WrapWriter && rapid.IntRange(0, 4).Draw(t, "outerwrites") == 0
 	c.Twice = rapid.IntRange(0, 5).Draw(t, "twice") == 0
 	c.OwnReturn = rapid.IntRange(0, 4).Draw(t, "ownreturn") == 0
+	c.Gone = rapid.IntRange(0, 5).Draw(t, "gone") == 0
 	c.Late = c.RecoveryAt == "use" && rapid.IntRange(0, 4).Draw(t, "late") == 0
 	switch rapid.IntRange(0, 5).Draw(t, "site") {
 	case 0:
